@@ -133,7 +133,7 @@ class Gen:
             return ("wide", tuple(self.expr("u", d - 2) for _ in range(nn)), tuple(self.expr("u", d - 2) for _ in range(nd)))
         if k == "maybe" and self.app:
             self.nmulti += 1
-            key = "mv%d" % self.nmulti
+            key = "%s_mv%d" % (getattr(self, "prefix", "m"), self.nmulti)
             mv = ("multi", "app_global_get_ex", (), (I(0), self.expr("b", d - 2)), 2, key)
             # value slot has anytype: read the flag (uint64) or, for bytes/uint, guard by type is not possible; use the flag
             if want == "u":
